@@ -9,6 +9,7 @@ import SqlProofs.SplitValue
 import SqlProofs.Resplit
 import SqlProofs.WsRespell.Def
 import SqlProofs.WsRespell.SqueezeDef
+import SqlProofs.WsRespell.GapDef
 import SqlModel.LexCost
 open Sql
 
@@ -97,6 +98,13 @@ def cmdWsRespellAny (s : Array Nat) : String :=
 
 def cmdWsClass : String :=
   "ok " ++ String.join (defaultCfg.rules.map fun r => if classRe r.re then "1" else "0")
+
+/-- `gapcert <hex text>`: per-boundary certificate `gapFree` (SqlProofs/WsRespell/Gap*.lean) for adding/removing white space between two
+consecutive significant tokens.  Answer: `ok <one digit per boundary>` (boundary j lies between significant tokens j and j+1), or `err <PyErr>`. -/
+def cmdGapCert (s : Array Nat) : String :=
+  match lex defaultCfg s with
+  | .error e => "err " ++ e.name
+  | .ok ts => "ok " ++ String.join ((gapBits ts).map fun b => if b then "1" else "0")
 
 /-- `lexwork <hex text>`: the cost model of the whole scan loop (SqlModel/LexCost.lean, bounded by `C16.lex_work_poly`).
 Answer: `ok <lexWork> <text length> <number of tokens>` (three decimal numbers), or `err <PyErr>` if lexing fails. -/
@@ -330,6 +338,7 @@ def handle (line : String) : String :=
   | "lexstable2" :: rest => cmdLexStable true (parseText rest)
   | "lexwork" :: rest => cmdLexWork (parseText rest)
   | "wsrespell" :: rest => cmdWsRespell (parseText rest)
+  | "gapcert" :: rest => cmdGapCert (parseText rest)
   | "wsrespellany" :: rest => cmdWsRespellAny (parseText rest)
   | "wsclass" :: _ => cmdWsClass
   | "csl" :: rest => cmdCsl rest
@@ -364,6 +373,7 @@ def handle (line : String) : String :=
   | "fmtstmt" :: rest => Sql.Driver.cmdFmtStmt rest
   | "fmt" :: rest => Sql.Driver.cmdFmt rest
   | "filtersafe" :: rest => Sql.Driver.cmdFilterSafe rest
+  | "liftok" :: rest => Sql.Driver.cmdLiftOk rest
   -- <<< formatting-side commands
   | _ => "bad-request"
 
